@@ -1084,3 +1084,13 @@ Proof.
   destruct (N.eqb_spec 10 c) as [<-|Hn]; [cbn in H; discriminate|].
   destruct c as [|q]; [reflexivity|]. do 4 (destruct q as [q|q|]; try reflexivity). exfalso. apply Hn. reflexivity.
 Qed.
+
+(* the round trip alone, under the name DESIGN.md uses *)
+Theorem derive_rt (E : Type) ext_print ext_parse ext_dom (PL : ParaLike) : ParaLaws PL ->
+  forall fs (v : list (option (uval E))),
+  ext_rt_law E ext_print ext_parse ext_dom -> NoDup (map f_key fs) -> val_ok E ext_dom fs v ->
+  exists p, to_paragraph E ext_print PL fs v = Some p /\ from_paragraph E ext_parse PL fs p = DOk v.
+Proof.
+  intros HL fs v Hext Hnd Hok. destruct (derive_rt_order E ext_print ext_parse ext_dom PL HL fs v Hext Hnd Hok) as (p & H1 & H2 & _).
+  exists p. split; assumption.
+Qed.
